@@ -5,8 +5,11 @@ import kernel, p_C02
 
 COQ_PROPS = 'props/C01.v'
 COQ_PROPS_EXTRA = ['props/C03.v']     # the complex-value facts (assemblers, + - * / bodies, entire functions) live in C03's closure
-PARTIAL = ('real kernel proved (value = plain evaluation for every tree; role irrelevance for every Num instance); '
-           'complex kernel and totality ("never rejected") are covered by correspondence and the oracle only')
+PARTIAL = ('real kernel proved: value = plain evaluation for every tree; role irrelevance for every Num instance; totality: whatever a '
+           'tree raises is an arithmetic error of the float operations on the values, the complex-result signal or a TypeError for a '
+           'non-uncertain operand, never an internal error (Totality.v, every number instance whose primitives raise only arithmetic '
+           'errors; proved for the reals); the complex kernel (values, promotion, its totality) is covered by correspondence and the '
+           'oracle only (known finding: an intermediate real combined with a complex literal raises AssertionError)')
 ASSUMPTIONS = ['rounding: values are computed by the same float operations as plain Python (validated bit-exactly by correspondence)']
 TRUSTED = ['Coquelicot and the Coq Reals library']
 
